@@ -15,6 +15,10 @@ import (
 
 func main() {
 	quiet()
+	if os.Getenv("VERIF_SCRATCH") == "" {
+		// own scratch base: other checks clean /var/tmp/verif-work while this one runs
+		os.Setenv("VERIF_SCRATCH", "/tmp/verif-work-client")
+	}
 	if len(os.Args) < 2 {
 		fmt.Println("ENGINE-ERROR property=? usage: client <C21|C22|C23|C37|keygen>")
 		os.Exit(2)
